@@ -1,12 +1,14 @@
 package checks
 
 import (
+	"context"
 	"errors"
 	"fmt"
 	"strings"
 	"time"
 
 	"github.com/notaryproject/notation-core-go/signature"
+	"github.com/notaryproject/tspclient-go"
 
 	"verif/envenc"
 	"verif/mc"
@@ -15,7 +17,14 @@ import (
 
 // C20 — an envelope object reflects its last successful signing or its parsed bytes. (Engine E3: histories.)
 
-var c20Ops = []string{"sign-A", "sign-B", "sign-fail-before-signer", "sign-fail-in-signer", "sign-fail-after-signer", "verify", "content"}
+var c20Ops = []string{"sign-A", "sign-B", "sign-fail-before-signer", "sign-fail-in-signer", "sign-fail-at-timestamping", "sign-fail-after-signer", "verify", "content"}
+
+// failingTimestamper is a tspclient.Timestamper whose authority is down: the inner envelope has already signed when it is asked.
+type failingTimestamper struct{}
+
+func (failingTimestamper) Timestamp(context.Context, *tspclient.Request) (*tspclient.Response, error) {
+	return nil, errors.New("netsim: timestamp authority unavailable")
+}
 
 type c20Obs struct {
 	verifyOK, contentOK    bool
@@ -104,6 +113,8 @@ func c20Request(which string, st c20Start) *signature.SignRequest {
 		req.ExtendedSignedAttributes = []signature.Attribute{{Key: "io.example.b", Critical: true, Value: "b"}}
 	case "fail-before":
 		req.Payload.Content = nil
+	case "fail-ts":
+		req.Timestamper = failingTimestamper{}
 	case "fail-after":
 		// valid for the inner envelope; the wrapper rejects the chain at this signing time after the inner envelope has signed
 		req.SigningTime = chain[0].X.NotBefore.Add(-48 * time.Hour)
@@ -239,7 +250,7 @@ func c20Body(c *mc.Ctx, st c20Start, depth int) {
 		case "verify", "content":
 			// observation only (check() performs both twice)
 		default:
-			which := map[string]string{"sign-A": "A", "sign-B": "B", "sign-fail-before-signer": "fail-before", "sign-fail-in-signer": "fail-in", "sign-fail-after-signer": "fail-after"}[op]
+			which := map[string]string{"sign-A": "A", "sign-B": "B", "sign-fail-before-signer": "fail-before", "sign-fail-in-signer": "fail-in", "sign-fail-at-timestamping": "fail-ts", "sign-fail-after-signer": "fail-after"}[op]
 			req := c20Request(which, st)
 			raw, err, pan := func() (raw []byte, err error, pan any) {
 				defer func() {
@@ -296,7 +307,7 @@ func c20Body(c *mc.Ctx, st c20Start, depth int) {
 func init() {
 	register(&mc.Check{
 		ID: "C20", Title: "An envelope object reflects its last successful signing or its parsed bytes", DesignRef: "DESIGN.md §4 C20",
-		Rule: "Engine E3: every history up to length 4 (quick) / 6 (thorough) over {sign A, sign B, sign failing before the signer is invoked, failing inside the inner envelope, failing after it (chain invalid at the signing time), verify, content} on one envelope object, " +
+		Rule: "Engine E3: every history up to length 4 (quick) / 6 (thorough) over {sign A, sign B, sign failing before the signer is invoked, failing inside the inner envelope before signing, failing at timestamping (after the signer ran), failing after the inner envelope (chain invalid at the signing time), verify, content} on one envelope object, " +
 			"from a new, a parsed valid and a parsed tampered envelope, both formats, local and remote signer; each history is replayed on a fresh object (no state merging) and after every operation Verify and Content are called twice and compared with a five-state reference machine " +
 			"(empty / parsed-valid / parsed-tampered / signed-A / signed-B): purity, no-signature error when empty, content of the last successful signing equal to a fresh parse of the returned bytes, and a failed signing never observable.",
 		Assumptions: []string{"after a failed signing the model follows whichever of the two allowed observations (previous state / no signature) the object shows"},
